@@ -1291,6 +1291,15 @@ class SpecAPI(object):
         cls = self.world.module_attr(it, m, 'ParsedLabel')
         return Obj(cls, {'index': a[0], 'label': a[1], 'is_absolute': a[2]})
 
+    def s_acot(self, it, a, k):
+        return self.world.builtins.libm(it, 'acot', a)
+
+    def s_acoth(self, it, a, k):
+        return self.world.builtins.libm(it, 'acoth', a)
+
+    def s_cot(self, it, a, k):
+        return self.world.builtins.libm(it, 'cot', a)
+
     def s_col_label(self, it, a, k):
         """ bijective base-26 column label of a zero-based index (upper case); '' for negative indices.  Uninterpreted
             symbolically: facts about it come from the exhaustive native enumeration (C19), not from the solver """
